@@ -321,9 +321,10 @@ func childIters(m *mdl, parent string, id int) (out []int) {
 	return
 }
 
-func pendingRangeBatch(m *mdl) bool {
-	for _, b := range m.batches {
-		if !b.done && b.hasRange {
+// pendingRangeBatch: is there an open batch (other than `except`) holding a DeleteRange?
+func pendingRangeBatch(m *mdl, except int) bool {
+	for i, b := range m.batches {
+		if i != except && !b.done && b.hasRange {
 			return true
 		}
 	}
@@ -350,7 +351,7 @@ func (g *gen) next(m *mdl) []op {
 	for {
 		switch x := rng.IntN(100); {
 		case x < 30: // store, direct
-			noWrite := g.steer["batch-deleterange-then-store-write"] && pendingRangeBatch(m)
+			noWrite := g.steer["batch-deleterange-then-store-write"] && pendingRangeBatch(m, -1)
 			y := rng.IntN(100)
 			switch {
 			case y < 30:
@@ -417,10 +418,16 @@ func (g *gen) next(m *mdl) []op {
 			id := lb[rng.IntN(len(lb))]
 			b := m.batches[id]
 			y := rng.IntN(100)
+			// steering: no commit and no second range delete while another open batch holds a DeleteRange
+			otherRange := g.steer["batch-deleterange-then-store-write"] && pendingRangeBatch(m, id)
 			if b.wrap == 2 { // BufferBatch: Put, Delete, Get, Flush, Write, Close
 				switch {
 				case y < 40:
-					return []op{{Obj: "batch", ID: id, Kind: "put", K: g.key(), V: g.val()}}
+					v := g.val()
+					if v == "" && g.steer["bufferbatch-put-empty-value"] {
+						v = "\xa0"
+					}
+					return []op{{Obj: "batch", ID: id, Kind: "put", K: g.key(), V: v}}
 				case y < 55:
 					return []op{{Obj: "batch", ID: id, Kind: "del", K: g.key()}}
 				case y < 78:
@@ -428,6 +435,9 @@ func (g *gen) next(m *mdl) []op {
 				case y < 85:
 					return []op{{Obj: "batch", ID: id, Kind: "bufflush"}}
 				case y < 96:
+					if otherRange {
+						continue
+					}
 					return []op{{Obj: "batch", ID: id, Kind: "write"}}
 				default:
 					return []op{{Obj: "batch", ID: id, Kind: "close"}}
@@ -439,6 +449,9 @@ func (g *gen) next(m *mdl) []op {
 			case y < 46:
 				return []op{{Obj: "batch", ID: id, Kind: "del", K: g.key()}}
 			case y < 56:
+				if otherRange {
+					continue
+				}
 				s, e := g.rangeBounds()
 				return []op{{Obj: "batch", ID: id, Kind: "delrange", K: s, E: e}}
 			case y < 61:
@@ -466,7 +479,7 @@ func (g *gen) next(m *mdl) []op {
 					ops = append(ops, op{Obj: "iter", ID: it, Kind: "close"})
 				}
 				kind := "write"
-				if rng.IntN(5) == 0 {
+				if rng.IntN(5) == 0 || otherRange {
 					kind = "close"
 				}
 				return append(ops, op{Obj: "batch", ID: id, Kind: kind})
@@ -481,7 +494,11 @@ func (g *gen) next(m *mdl) []op {
 			case y < 55:
 				k := g.key()
 				kind := readKind()
-				if _, present := m.snaps[id].data[k]; kind == "has" && !present && g.steer["snapshot-has-missing-key"] {
+				_, present := m.snaps[id].data[k]
+				if kind == "has" && !present && g.steer["snapshot-has-missing-key"] {
+					kind = "get"
+				}
+				if kind == "getcberr" && present && g.steer["snapshot-get-failing-callback"] {
 					kind = "get"
 				}
 				return []op{{Obj: "snap", ID: id, Kind: kind, K: k}}
@@ -1105,7 +1122,8 @@ func runSequence(r *lib.Run, col *collector, idx int) {
 	rng := lib.Rng("C15/seq", uint64(idx))
 	g := &gen{rng: rng, steer: map[string]bool{}, flushy: idx%3 == 0}
 	if idx%4 != 0 { // three quarters of the sequences steer around shapes listed as open findings
-		for _, tag := range []string{"snapshot-has-missing-key", "iter-no-upper-bound", "iter-unbounded-prefix", "batch-deleterange-then-store-write"} {
+		for _, tag := range []string{"snapshot-has-missing-key", "snapshot-get-failing-callback", "iter-no-upper-bound", "iter-unbounded-prefix",
+			"batch-deleterange-then-store-write", "bufferbatch-put-empty-value"} {
 			if lib.Avoid("C15:" + tag) {
 				g.steer[tag] = true
 				r.Count("sequences_steering_around["+tag+"]", 1)
@@ -1113,10 +1131,11 @@ func runSequence(r *lib.Run, col *collector, idx int) {
 		}
 	}
 	g.mkPool()
-	spec := newModel(0)
+	nilEmpty := raceBuild || idx%2 == 0
+	spec := newModel(0, nilEmpty)
 	variants := map[int]*mdl{}
 	for _, f := range variantOrder {
-		variants[f] = newModel(f)
+		variants[f] = newModel(f, nilEmpty)
 	}
 	var backs []*real
 	for _, n := range backendNames {
@@ -1129,7 +1148,7 @@ func runSequence(r *lib.Run, col *collector, idx int) {
 			r.Note("open " + n + ": " + err.Error())
 			return
 		}
-		b.nilEmpty = idx%2 == 0
+		b.nilEmpty = nilEmpty
 		backs = append(backs, b)
 	}
 	alive := map[string]bool{}
@@ -1221,6 +1240,7 @@ func runSequence(r *lib.Run, col *collector, idx int) {
 		exec(&op{Obj: "iter", ID: id, Kind: "close"})
 	}
 	lb, _ := liveBatches(spec)
+	sort.SliceStable(lb, func(i, j int) bool { return spec.batches[lb[i]].hasRange && !spec.batches[lb[j]].hasRange })
 	for _, id := range lb {
 		kind := "write"
 		if rng.IntN(3) == 0 {
